@@ -10,6 +10,15 @@ import (
 
 func runC11(c Case, st *Stats) error {
 	c.Cfg.Sync = true
+	hasMerge := false
+	for _, s := range c.Steps {
+		if s.K == "merge" {
+			hasMerge = true
+		}
+	}
+	if hasMerge {
+		c = dropListZsetForMergeCrash(c, st)
+	}
 	if c.Cfg.Mode == 2 && Known("sparse-index-files-not-crash-consistent") {
 		st.Exclude("sparse-index-files-not-crash-consistent")
 		c.Cfg.Mode = 1
@@ -53,6 +62,12 @@ func runC11(c Case, st *Stats) error {
 	if rc.Failed > 0 {
 		classes = append(classes, "failed-transaction-in-workload")
 	}
+	if hasMerge {
+		classes = append(classes, "workload-with-merge-call")
+	}
+	if rc.MergeOK > 0 {
+		classes = append(classes, "workload-with-successful-merge")
+	}
 	st.Class("positions", ps.Positions)
 	st.Class("positions-with-volatile-operations", ps.WithVolatile)
 	st.Eval(c.JSON(), ps.WithVolatile > 0 && ps.Images > 3, classes...)
@@ -62,6 +77,6 @@ func runC11(c Case, st *Stats) error {
 func init() { register("C11", runC11) }
 
 func TestC11(t *testing.T) {
-	p := wlParams{Modes: []int{0, 0, 1, 2}, Segs: []int64{200, 333, 1024}, MaxSteps: 10, ReopenPct: 8, FailPct: 12, Structs: true, SyncOnly: true}
+	p := wlParams{Modes: []int{0, 0, 1, 2}, Segs: []int64{200, 333, 1024}, MaxSteps: 10, ReopenPct: 8, FailPct: 12, MergePct: 10, Structs: true, SyncOnly: true}
 	runProperty(t, "C11", genWorkload(p), runC11)
 }
